@@ -40,6 +40,7 @@ def handleApply (c : J) : Res := Id.run do
     return r
   r := pass r "C05"
   if !(c.getBool "origPure") then r := fail r "C05" "ApplyUpdate mutated the observed object"
+  if (c.get? "updatePure").isSome && !(c.getBool "updatePure") then r := fail r "C05" "ApplyUpdate mutated the desired object it was handed"
   match outKind out with
   | "panic" => r := fail r "C05" "panic"
   | "err" => r := tag r "error"
